@@ -41,6 +41,7 @@ type Event struct {
 	MayLoop []string // marker: a loop that may emit these event names any number of times ("*" = anything)
 	Pos     token.Pos
 	Cond    Term // event happened only if Cond (empty = unconditional)
+	Deep    bool // MayLoop marker standing for a callee's internal events (its may_emit list)
 }
 
 func (e Event) String() string {
@@ -391,7 +392,12 @@ func (e *Exec) curIn(snap *HeapView, key string, leafSort Sort, two bool) Term {
 // rootWF: type invariants of an unknown heap array: slice lengths and offsets
 // stored anywhere are non-negative and bounded by the address space.
 func (e *Exec) rootWF(st *State, key string, t Term, two bool) {
-	if e.keyKind[key] == KRef && !strings.HasPrefix(key, "ghost:") && !strings.HasPrefix(key, "map") {
+	if strings.HasPrefix(key, "ghost:") {
+		if g := e.eng.specs.Ghosts[strings.TrimPrefix(key, "ghost:")]; g != nil && !g.IsField && (g.Result == "ref" || strings.HasPrefix(g.Result, "*")) {
+			e.keyKind[key] = KRef
+		}
+	}
+	if e.keyKind[key] == KRef && (!strings.HasPrefix(key, "ghost:") || e.eng.specs.Ghosts[strings.TrimPrefix(key, "ghost:")] != nil) && !strings.HasPrefix(key, "map") {
 		// every reference stored in an unknown heap array is allocated
 		top := st.allocTop
 		if strings.HasPrefix(t.S, "H") && strings.Contains(t.S, "!") && !strings.Contains(t.S, ".") {
